@@ -154,10 +154,12 @@ def jobs(tier, seed):
     if tier == 'thorough':
         for name in REDUCED:
             for a in REDUCED[name]:
-                js.append(('enum', name, 6, (a,)))
+                for b in REDUCED[name]:
+                    js.append(('enum', name, 6, (a, b)))
     else:
         for name in REDUCED:
-            js.append(('enum', name, 5, ()))
+            for a in REDUCED[name]:
+                js.append(('enum', name, 5, (a,)))
     js.append(('matrix', L))
     nshard = 16
     per = 1500 if tier == 'quick' else 40000
